@@ -81,7 +81,7 @@ def run_task(task):
         except Undecided as e: res['xcheck'] = {'status': 'skipped', 'why': str(e)[:100]}
         except Exception as e: res['xcheck'] = {'status': 'error', 'why': traceback.format_exc()[-800:]}
     s1 = sstr.STATS
-    res['stats'] = {k: s1[k] - s0[k] for k in s1}
+    res['stats'] = {k: s1[k] - s0.get(k, 0) for k in s1}
     res['t'] = time.time() - t0
     return res
 
@@ -90,7 +90,7 @@ def _init_worker():
     sys.setrecursionlimit(20000)
 
 # ------------------------------------------------------------------ driver
-def explore(hname, cases, opts, max_paths=200000, deadline=None, stop_on=None):
+def explore(hname, cases, opts, max_paths=200000, deadline=None, stop_on=None, soft_deadline=False):
     """work queue over (case, decision prefix)"""
     results = []
     ctx = mp.get_context('fork')
@@ -117,7 +117,9 @@ def explore(hname, cases, opts, max_paths=200000, deadline=None, stop_on=None):
                 results.append({'case': -1, 'outcome': 'stopped', 'note': 'exploration stopped after the first violations', 'obligations': [], 'xcheck': None, 'stats': {}, 't': 0})
             if n > max_paths or (deadline and time.time() > deadline):
                 for f in futs: f.cancel()
-                results.append({'case': -1, 'outcome': 'undecided', 'note': 'path/time budget exhausted', 'obligations': [], 'xcheck': None, 'stats': {}, 't': 0})
+                # quick tier: an unfinished exploration is undecided.  thorough tier: it explores as deep as its time budget allows and reports on what
+                # it explored (the cases of the quick tier are queued first; the vacuity lock still requires every obligation name of the quick tier)
+                results.append({'case': -1, 'outcome': 'budget' if soft_deadline else 'undecided', 'note': f'path/time budget exhausted after {n} paths', 'obligations': [], 'xcheck': None, 'stats': {}, 't': 0})
                 break
     return results
 
@@ -137,13 +139,16 @@ def check(prop, tier='quick', seed=0, only=None):
     opts = {'xcheck': True, 'tier': tier, 'seed': seed}
     os.environ['PYVC_TIER'] = tier
     cases = h.cases(tier)
+    if tier != 'quick':
+        q = {repr(c) for c in h.cases('quick')}
+        cases = [c for c in cases if repr(c) in q] + [c for c in cases if repr(c) not in q]        # the quick tier's cases first
     if only: cases = [c for c in cases if only in repr(c)]
     budget = getattr(h, 'BUDGET_S', {}).get(tier, 1500)
     known = [k for k in load_known() if k.get('property') == prop and k.get('kind') == 'known']
     def outside_known(o):
         if o.get('inputs') is None or not hasattr(h, 'in_known_class'): return True
         return not any(k.get('obligation') == o['name'] and h.in_known_class(k, o['inputs']) for k in known)
-    results = explore(hname, cases, opts, deadline=time.time() + budget, stop_on=outside_known if tier == 'quick' else None)
+    results = explore(hname, cases, opts, deadline=time.time() + budget, stop_on=outside_known if tier == 'quick' else None, soft_deadline=(tier != 'quick'))
     # extra (non path-based) obligations: lemmas discharged once
     lemma_obs = []
     if hasattr(h, 'lemmas'):
@@ -234,15 +239,17 @@ def summarize(prop, h, tier, seed, cases, results, lemma_obs, wall):
               'trusted_base': getattr(h, 'TRUSTED', []) + COMMON_TRUSTED,
               'functions_under_contract': h_files(h), 'paths_explored': len([r for r in results if r['outcome'] == 'ok']), 'cases': len(cases),
               'paths_outside_subset': len(outside), 'discharged_by_backend': by_backend,
-              'solver': {'z3_queries': stats.get('z3', 0), 'z3_time_s': round(stats.get('z3_t', 0), 2), 'cvc5_queries': stats.get('cvc5', 0), 'cvc5_time_s': round(stats.get('cvc5_t', 0), 2), 'both_unknown': stats.get('unknown', 0)},
+              'stopped_at_time_budget': [r['note'] for r in results if r['outcome'] == 'budget'],
+              'solver': {'z3_queries': stats.get('z3', 0), 'z3_time_s': round(stats.get('z3_t', 0), 2), 'cvc5_queries': stats.get('cvc5', 0), 'cvc5_time_s': round(stats.get('cvc5_t', 0), 2), 'both_unknown': stats.get('unknown', 0), 'retried_with_load_budget': stats.get('feas_retry', 0) + stats.get('obl_retry', 0)},
               'cpython_crosscheck': {'paths_checked': len([x for x in xc if x.get('status') in ('agree', 'diverged')]), 'diverged': len(xdiv), 'skipped': len([x for x in xc if x.get('status') == 'skipped'])},
               'canaries': {'planted': len(canaries), 'refuted_as_expected': len(canaries) - len(canary_bad)},
               'bounded': getattr(h, 'BOUNDED', []), 'samples': samples or [{'note': 'no obligations'}],
               'explanation': getattr(h, 'EXPLANATION', ''),
               'evaluations': len(mine), 'distinct_nontrivial': len([o for o in mine if o.get('backend') != 'structural']) },
           'assumptions': getattr(h, 'ASSUMPTIONS', []) + COMMON_ASSUMPTIONS}
-    os.makedirs(os.path.join(VERIF, 'evidence'), exist_ok=True)
-    json.dump(ev, open(os.path.join(VERIF, 'evidence', f'{prop}.json'), 'w'), indent=1, default=str)
+    evdir = os.environ.get('PYVC_EVIDENCE_DIR') or os.path.join(VERIF, 'evidence')      # runs against a seeded scratch tree keep their evidence apart (tools/run_seeds.sh)
+    os.makedirs(evdir, exist_ok=True)
+    json.dump(ev, open(os.path.join(evdir, f'{prop}.json'), 'w'), indent=1, default=str)
     # ---- verdict
     print(f'[{prop}] tier={tier} cases={len(cases)} paths={ev["coverage"]["paths_explored"]} obligations={len(mine)} discharged={len(discharged)} '
           f'refuted={len(refuted)} undecided={len(undecided)} outside={len(outside)} xcheck={ev["coverage"]["cpython_crosscheck"]} wall={wall:.1f}s')
@@ -252,6 +259,8 @@ def summarize(prop, h, tier, seed, cases, results, lemma_obs, wall):
             if r.get('case', -1) >= 0:
                 a = agg.setdefault(r['case'], [0, 0.0]); a[0] += 1; a[1] += r.get('t', 0)
         for ci, (n, t) in sorted(agg.items(), key=lambda kv: -kv[1][1])[:25]: print(f'  PROFILE case {cases[ci]!r}: paths={n} cpu={t:.1f}s')
+    for r in results:
+        if r['outcome'] == 'budget': print(f'NOTE: the {tier} tier stopped at its time budget ({r["note"]}); the verdict covers the paths explored so far')
     for l in known_lines: print(l)
     code = 0
     if crashes or xdiv or xerr or canary_bad:
